@@ -99,3 +99,9 @@ Definition future_model (c : future_case) : option (list (N * bytes * bool)) :=
 
 Definition check_future (c : future_case) : bool :=
   let '(_, _, qs) := c in beq (future_model c) (Some qs).
+
+(** * ids: (peer id, dbid, the id bytes the signer uses for that channel: the slot's id0 and the
+      store key); the model's encoder must produce exactly those bytes *)
+Definition id_case : Type := bytes * N * bytes.
+Definition check_id (c : id_case) : bool :=
+  let '(peer, dbid, real) := c in beq (chan_id_of peer dbid) real.
